@@ -486,6 +486,22 @@ def _apply_oracles(obs, case, spec, flat, cfg, task, before_cfg, before_task, mo
         if list(op["perm"]) != sorted(op["perm"]):
             nonid += 1
     st["pool_nonidentity"] = nonid
+    # completion order of the futures, observed at the executor (independent of how results are gathered)
+    ooo = 0
+    orders = []
+    for ex in mon.pool_execs:
+        comp = list(ex["completed"])
+        if comp != sorted(comp):
+            ooo += 1
+            if len(orders) < 3:
+                orders.append(comp)
+        if len(comp) != ex["submitted"] or sorted(comp) != list(range(ex["submitted"])):
+            _v(obs, "C11", {"kind": "pool-exactly-once"},
+               f"{ex['phase']}: {ex['submitted']} futures submitted, completion callbacks for {sorted(comp)[:8]}...")
+            break
+    st["pool_execs"] = len(mon.pool_execs)
+    st["pool_completed_out_of_order"] = ooo
+    st["completion_orders"] = orders
     st["perms"] = [list(op["perm"]) for op in mon.pool_ops if op.get("perm") and list(op["perm"]) != sorted(op["perm"])][:3]
     for req, got, phase in mon.generate:
         if req != got:
